@@ -445,7 +445,7 @@ func (s *Sim) checkShadow(m *txMeta, p *Pkt, in *PktInfo, mo *MsgObs, ack AckInf
 		// depend on the prior balance is success/refusal (and the bytes of a success)
 		if v.Success != base.Success || (v.Success && string(v.Ack) != string(base.Ack)) {
 			fp := "ack-differs variant=" + name
-			if s.EnvM.Blacklist[dustS] && in.Native == DenomUSDC {
+			if m.DustBlacklistedAtShadow && in.Native == DenomUSDC {
 				fp += " env=dust-collector-blacklisted-by-token-issuer"
 			}
 			s.violate("C11", "independent-of-prior-balance", fp, fmt.Sprintf("packet op=%d: as is %.200s / %s %.200s", p.Origin, base.Ack, name, v.Ack))
